@@ -190,6 +190,8 @@ def decode_bech32(s):
     """Returns network, segwit version and the hash from the bech32 address"""
     regtest_prefix = PREFIX["regtest"]
     if s.startswith(regtest_prefix):
+        if s[4:5] != "1":
+            raise ValueError(f"bad address: {s}")
         hrp, raw_data = regtest_prefix, s[5:]
     else:
         hrp, raw_data = s.split("1")
